@@ -52,16 +52,16 @@ class FakeSnowflakeConnection:
         self.variables = Variables()
 
         # create database if needed
-        if (
-            create_database
-            and self.database
-            and not duck_conn.execute(
+        if create_database and self.database:
+            if not duck_conn.execute(
                 f"""select * from information_schema.schemata
                 where upper(catalog_name) = '{self.database}'"""
-            ).fetchone()
-        ):
-            db_file = f"{self.db_path/self.database}.db" if self.db_path else ":memory:"
-            duck_conn.execute(f"ATTACH DATABASE '{db_file}' AS {self.database}")
+            ).fetchone():
+                db_file = f"{self.db_path/self.database}.db" if self.db_path else ":memory:"
+                # IF NOT EXISTS because another connection may be creating the same database concurrently
+                duck_conn.execute(f"ATTACH IF NOT EXISTS DATABASE '{db_file}' AS {self.database}")
+            # always (re)run the idempotent bootstrap, because a concurrent connection that attached
+            # the database first may not have created the info schema extensions yet
             duck_conn.execute(info_schema.creation_sql(self.database))
             duck_conn.execute(macros.creation_sql(self.database))
 
@@ -75,7 +75,7 @@ class FakeSnowflakeConnection:
                 where upper(catalog_name) = '{self.database}' and upper(schema_name) = '{self.schema}'"""
             ).fetchone()
         ):
-            duck_conn.execute(f"CREATE SCHEMA {self.database}.{self.schema}")
+            duck_conn.execute(f"CREATE SCHEMA IF NOT EXISTS {self.database}.{self.schema}")
 
         # set database and schema if both exist
         if (
